@@ -101,6 +101,11 @@ func (t *token) Float64() float64 {
 }
 
 func (t *token) Append(b *token) {
+	if b == nil {
+		// only the empty statement parses to nil: it is not an operand, an argument or
+		// an element, and a nil node would crash whoever walks the tree later
+		panicf("unexpected ;")
+	}
 	t.Tokens = append(t.Tokens, b)
 }
 
